@@ -137,8 +137,16 @@ def check_case(case, scratch, stats=None):
     depth, sib, k = case['depth'], case['sib'], case['k']
     info = case['info']
     info['dist'] = {int(a): tuple(b) for a, b in info['dist'].items()}
-    broot = fresh_root(scratch, 'base')
-    Tree.from_json(case['base']).write(broot)
+    # History, not a snapshot: the UNTAMPERED tree is materialised and queried first (fresh loader per
+    # query), then the attacker rewrites files in place at the same paths, then fresh loaders are queried
+    # again.  Anything gemato remembers across loaders within one process is thereby part of the state.
+    root = fresh_root(scratch)
+    Tree.from_json(case['base']).write(root)
+    base_obs = {}
+    for label, need, fn in queries(info, depth, sib):
+        if case.get('only_query') and label != case['only_query']:
+            continue
+        base_obs[label] = observe(root, fn)
     root = materialise(case, scratch)
     out = []
     only = case.get('only_query')
@@ -169,7 +177,7 @@ def check_case(case, scratch, stats=None):
                 if got[0] == 'exc' and got[1] == 'ManifestMismatch':
                     bad = 'broken_chain_wrong_path'
         elif expect == 'same_as_base':
-            base = observe(broot, fn)
+            base = base_obs[label]
             if got != base:
                 bad = 'unrelated_query_changed'
         elif expect == 'no_chain_failure':
